@@ -43,7 +43,7 @@ trait FileOps : Sized {
         ensures r is Ok ==> final(buf)@ == old(buf)@ + old(self).content();
 }
 
-trait System : Sized
+trait System : Sized + Clone
 {
     type File: FileOps;
 
@@ -61,6 +61,14 @@ trait System : Sized
 
     fn is_file(&self, path: &str, Tracked(w): Tracked<&mut World>) -> (r: bool)
         ensures *final(w) == *old(w), r == old(w).files.contains_key(path@);
+
+    fn is_dir(&self, path: &str, Tracked(w): Tracked<&mut World>) -> (r: bool)
+        ensures *final(w) == *old(w), r == old(w).dirs.contains(path@);
+
+    // a crash point that leaves every file as it was: only the set of directories may grow, by this one path
+    fn create_dir(&mut self, path: &str, Tracked(w): Tracked<&mut World>) -> (r: Result<(), SystemError>)
+        ensures same_consts(*old(w), *final(w)), final(w).files == old(w).files, final(w).execs == old(w).execs,
+            r is Ok ==> final(w).dirs == old(w).dirs.insert(path@), r is Err ==> final(w).dirs == old(w).dirs;
 
     fn rename(&mut self, from: &str, to: &str, Tracked(w): Tracked<&mut World>) -> (r: Result<(), SystemError>)
         requires old(w).files.contains_key(from@) ==> decodes_as(state_kind(to@), old(w).files[from@].content),     //# O-H-atomic-rename [C11]
